@@ -2,11 +2,11 @@
 # Runs every claimed check (quick) on the current tree and validates MANIFEST + evidence.
 cd /verif
 [ -n "$(git -C /repo status --porcelain --untracked-files=no)" ] && echo "WARNING: /repo has uncommitted changes"
-rc=0
+rc=0; bad=""
 for id in $(python3 -c "import json;print(' '.join(c['property_id'] for c in json.load(open('MANIFEST.json'))['checks']))"); do
   out=$(./bin/goblvc check $id --tier quick 2>&1); r=$?
   echo "$out" | tail -1
-  [ $r -ne 0 ] && { rc=1; echo "$out" | grep -v "^  " | head -10; }
+  [ $r -ne 0 ] && { rc=1; bad="$bad $id"; echo "$out" | grep -v "^  " | head -10; }
 done
 python3-vt - <<'PY'
 import json, jsonschema, glob
@@ -19,4 +19,5 @@ for c in m['checks']:
     assert cov['obligations']==cov['discharged'], (c['property_id'],cov['obligations'],cov['discharged'])
 print("manifest + evidence valid")
 PY
+[ $rc -ne 0 ] && echo "REFRESH FAILED for:$bad" || echo "REFRESH OK: all checks exit 0 on the current tree"
 exit $rc
